@@ -916,6 +916,14 @@ func (engine) Generate(r *lib.Rng, tier string, i int) any {
 			return out
 		}
 		sp := &ScalarSpec{Shape: r.Intn(5), Nat: g.natSubset(), Out: ints(), In: ints(), DAG: r.Chance(1, 2), Pipe: r.Chance(1, 2)}
+		if r.Chance(1, 2) {
+			// any-typed chunks that hold maps of one Go type (map[string]string, map[string]int, NMap, map[string]any,
+			// map[string]map[string]string): the engine concatenates them by their dynamic type, key by key
+			sp.Shape, sp.MT = 5+r.Intn(3), r.Intn(5)
+			if len(sp.Out) < 2 {
+				sp.Out = append(sp.Out, 7)
+			}
+		}
 		return &Case{Kind: "scalar", Scalar: sp}
 	}
 	if r.Chance(1, 40) {
